@@ -125,6 +125,7 @@ def run(report, tier, seed):
     def make_case():
         """returns (label, thunk, varies) — varies: the option keys the case may legitimately depend on"""
         kind = rng.choice(["construct", "construct_mixed", "division", "division", "binary", "binary", "power", "derivative", "derivative", "gradient", "hessian", "call", "call_partial",
+                           "compute_call",
                            "index", "align", "pickle", "catalogue", "catalogue", "order", "text", "todict", "set_dimensions"])
         if kind == "construct":
             D = rng.randint(1, 3)
@@ -174,6 +175,26 @@ def run(report, tier, seed):
                 vs = [rng.choice(p.names) if rng.random() < 0.6 else rng.randrange(len(p.names)) for _ in range(rng.choice([1, 2, 2, 3]))]
                 return kind, (lambda: numpoly.derivative(p, *vs)), set(), None
             return kind, (lambda: getattr(numpoly, kind)(p)), set(), None
+        if kind == "compute_call":
+            # the polynomial is COMPUTED under the setting (terms that cancel stay in storage under retain_coefficients=True)
+            # and then evaluated with an argument wider than its coefficients for an indeterminate that only occurs in
+            # cancelled terms: value, shape and dtype of the result must not depend on the setting
+            a, b, c = rng.sample(range(3), 3)
+            val = rng.choice([0.5, 2 + 0j, numpy.float32(0.5), numpy.array([0.5, 1.5]), numpy.int8(2)])
+            form = rng.randrange(3)
+
+            def thunk(a=a, b=b, c=c, val=val, form=form):
+                q = numpoly.variable(3)
+                if form == 0:
+                    p = (q[a] + q[b]) * (q[a] - q[b]) + q[b] ** 2
+                elif form == 1:
+                    p = numpoly.polynomial([q[a] * q[b] - q[b] * q[a] + 1, q[a]])
+                else:
+                    p = (q[a] + 2 * q[b] + q[c]) - 2 * q[b] + 3
+                return p(**{f"q{b}": val})
+            # retain_names=False removes the indeterminate the keyword names (it is unused after the cancellation), which
+            # legitimately turns the call into a TypeError: that option is not varied for this case
+            return kind, thunk, {"retain_names"}, None
         if kind in ("call", "call_partial"):
             p = mk(gen.rand_shape(rng, 2))
             vals = {nm: rng.randint(-3, 3) for nm in p.names}
